@@ -1104,7 +1104,7 @@ pub fn ops_for(prop: &str) -> Vec<Op> {
             Op::Fee(0), Op::Fee(1), Op::Fee(2), Op::Fee(3), Op::Coll(1), Op::Meta, Op::RefIn(1), Op::RefIn(3),
             Op::WdAgain(0), Op::WdAgain(2), Op::Wd(4), Op::InAgain(0), Op::In(7, 0), Op::In(7, 1), Op::In(8, 0), Op::In(17, 0),
             Op::Ttl, Op::Treasury, Op::MintAndOutput, Op::MetaJson, Op::ExtraDatum(1), Op::ExtraDatum(0), Op::ExtraDatum(4), Op::MetaEmpty(0), Op::MetaEmpty(1),
-            Op::In(18, 0), Op::Mint(6),
+            Op::In(18, 0), Op::Mint(6), Op::Mint(5),
         ],
         // C16 looks at ordering and repetition in the built transaction: items that bring scripts,
         // datums, reference inputs, signers - one or two per source
